@@ -238,6 +238,7 @@ func (e *Engine) cmdCheck(prop, tier, evid, known, replayDir string, replay bool
 		all = append(all, e.canonObligations()...)
 	case "C05":
 		all = append(all, e.parseWidthObligations()...)
+		all = append(all, e.mnemonicTableObligations()...)
 	}
 	all = append(all, e.wirefmtObligations(prop)...)
 	all = append(all, bindFailures...)
